@@ -1,4 +1,5 @@
 import dis
+import re
 import yaml
 from typing import (
     Any,
@@ -146,6 +147,25 @@ class NameGenerator:
             self.kinds[kind] = idx + 1
         return name
 
+    def reserve(self, name: str) -> None:
+        """Mark a name that is already in use as taken.
+
+        If the given name has the form of a generated block, region or
+        variable name, the index for its kind is advanced past it, such that
+        the same name will never be generated again.
+
+        Parameters
+        ----------
+        name: str
+            The name that is already in use.
+        """
+        match = re.fullmatch(r"(.+)_(?:block|region)_(\d+)", name)
+        if match is None:
+            match = re.fullmatch(r"__scfg_(.+)_var_(\d+)__", name)
+        if match is not None:
+            kind, idx = match.group(1), int(match.group(2))
+            self.kinds[kind] = max(self.kinds.get(kind, 0), idx + 1)
+
 
 @dataclass(frozen=True)
 class SCFG(Sized):
@@ -175,6 +195,16 @@ class SCFG(Sized):
     region: RegionBlock = field(init=False, compare=False)
 
     def __post_init__(self) -> None:
+        # Names that are already present in the graph (e.g. a graph that was
+        # read back from a dictionary, or whose blocks were named by hand)
+        # must never be generated again.
+        for block_name, block in self.graph.items():
+            self.name_gen.reserve(block_name)
+            if isinstance(block, SyntheticBranch):
+                self.name_gen.reserve(block.variable)
+            elif isinstance(block, SyntheticAssignment):
+                for variable in block.variable_assignment:
+                    self.name_gen.reserve(variable)
         name = self.name_gen.new_region_name("meta")
         new_region = RegionBlock(
             name=name,
